@@ -405,6 +405,11 @@ C18(r) ==
 \* markers: [t, el, pos], t in Hb Ha (step hooks, stdout), O (stdout) E (stderr) L (logging) of the step body
 SetOf(q) == {q[k] : k \in DOMAIN q}
 AfterStepSeen(r, s, p) == \E i \in Ix(r) : Ev(r, i).k = "hook" /\ Ev(r, i).name = "after_step" /\ Ev(r, i).el = s /\ Ev(r, i).pos = p
+\* the log records of a step body <<marker, level, logger name>> and the capture handler's admission rule (level, RecordFilter)
+StepLogRecords == {<<"D", 10, "verif">>, <<"L", 30, "verif">>, <<"G", 40, "other">>}
+LogPassR(r, lv, nm) == /\ lv >= r.cfg.loglvl
+                       /\ IF r.cfg.logexc # <<>> THEN \A i \in DOMAIN r.cfg.logexc : r.cfg.logexc[i] # nm
+                          ELSE r.cfg.loginc = <<>> \/ \E i \in DOMAIN r.cfg.loginc : r.cfg.loginc[i] = nm
 Produced(r, s, q) ==      \* everything written while step q of scenario s was running, per stream
    [out |-> (IF BeforeStepSeen(r, s, q) THEN {[t |-> "Hb", el |-> s, pos |-> q]} ELSE {})
             \cup (IF Called(r, s, q) THEN {[t |-> "O", el |-> s, pos |-> q]} ELSE {})
@@ -412,7 +417,7 @@ Produced(r, s, q) ==      \* everything written while step q of scenario s was r
             \cup (IF <<s, q>> \in r.x.afters THEN {[t |-> "A", el |-> s, pos |-> q]} ELSE {})      \* calling step after execute_steps()
             \cup (IF AfterStepSeen(r, s, q) THEN {[t |-> "Ha", el |-> s, pos |-> q]} ELSE {}),
     err |-> IF Called(r, s, q) THEN {[t |-> "E", el |-> s, pos |-> q]} ELSE {},
-    log |-> IF Called(r, s, q) THEN {[t |-> "L", el |-> s, pos |-> q]} ELSE {}]
+    log |-> IF Called(r, s, q) THEN {[t |-> m[1], el |-> s, pos |-> q] : m \in {m \in StepLogRecords : LogPassR(r, m[2], m[3])}} ELSE {}]
 CapturedUpTo(r, s, p) == UNION {(IF r.cfg.cap_out THEN Produced(r, s, q).out ELSE {}) \cup (IF r.cfg.cap_err THEN Produced(r, s, q).err ELSE {})
                                 \cup (IF r.cfg.cap_log THEN Produced(r, s, q).log ELSE {}) : q \in 1..p}
 C18Marks(r) ==
